@@ -255,7 +255,23 @@ def r3_heading(ctx, rep):
                "a procedure heading is assembled by hand outside proc_line (sibling disagreement risk)", o.loc)
 
 
+def r4_literals_and_argument_attributes(ctx, rep):
+    """displayed text is the source text: literal masking precedes case folding (shared with C02.R4), and
+    attribute statements reach dummy arguments (shared with C01.R4/C04.R3)."""
+    py = ctx.py
+    from . import c02
+    c02.r4_masking(ctx, rep)
+    fp = py.func("FortranProcedure._cleanup")
+    first = [s for s in fp.body if not (isinstance(s, ast.Expr) and isinstance(s.value, ast.Constant))][0]
+    ok = "super()._cleanup()" in ast.unparse(first)
+    rep.ob("attribute statements are applied before dummy arguments are matched", ok,
+           "intent/optional/dimension statements naming a dummy argument are shown in the argument table" if ok else
+           "FortranProcedure._cleanup removes the dummy arguments from self.variables before process_attribs runs: "
+           "`intent(in) :: n`, `optional :: flag`, `dimension a(n,2)` written as statements are not displayed", py.nloc(fp))
+
+
 RULES = [
+    RuleSpec("C18.R4", r4_literals_and_argument_attributes, "literal case is preserved; argument attributes are complete", floor=5),
     RuleSpec("C18.R1a", r1_sources, "literal re-insertion sites are the tracked sources; no autoescape", floor=4),
     RuleSpec("C18.R1", r1_sinks, "literal-bearing text is escaped at every template sink", floor=8),
     RuleSpec("C18.R2", r2_no_transform_after_restore, "no transformation after literals are re-inserted", floor=4),
